@@ -326,6 +326,22 @@ blk_leave (Call *c)
   atomic_compare_exchange_strong (&first_return_us, &none, now);
 }
 
+/* Is there a blocking wait that has been going on for span_us, counted from the later of its own start and the first
+ * return of the case?  (A thread that is merely late to start its wait is not what the watch is about.) */
+static int
+blocked_since (long long first, long long span_us)
+{
+  int i;
+  long long now = now_us ();
+  for (i = 0; i < cur_ncalls; i++)
+    if (atomic_load (&calls[i].blk) == 1)
+      {
+        long long beg = atomic_load (&calls[i].blk_beg_us);
+        if (now - (beg > first ? beg : first) >= span_us) return 1;
+      }
+  return 0;
+}
+
 /* Multi-blocker watch expired: say which blocking waits have not returned and wait to be killed.  Nothing here touches
  * the event log (threads stuck inside libdbus may have written to it without any ordering we could rely on); only the
  * per-call atomics are read. */
@@ -504,7 +520,7 @@ exec_op (const Op *o)
               {
                 polls++;
                 if (now_us () - first >= o->a * 1000LL && polls >= o->a / 4
-                    && atomic_load (&n_threads_done) < cur_nthreads - 1)
+                    && atomic_load (&n_threads_done) < cur_nthreads - 1 && blocked_since (first, o->a * 1000LL))
                   report_stuck (o->a, polls);
               }
             usleep (2000);
